@@ -106,8 +106,10 @@ static void print_interest(int epfd, int block) {
   f = fopen(path, "r");
   if (f != NULL) {
     while (fgets(line, sizeof line, f)) {
-      int tfd; unsigned ev;
-      if (sscanf(line, "tfd: %d events: %x", &tfd, &ev) == 2 && IN_RANGE(tfd) && n < 4096) {
+      int tfd; unsigned ev; unsigned long long data = 0;
+      if (sscanf(line, "tfd: %d events: %x data: %llx", &tfd, &ev, &data) >= 2 && IN_RANGE(tfd) && n < 4096) {
+        /* libuv stores the descriptor number in epoll_event.data (memset 0 + data.fd = fd) */
+        if (data != (unsigned long long) tfd) printf("#baddata %d %llx\n", tfd, data);
         ent[n][0] = tfd; ent[n][1] = ev & ~(unsigned) (EPOLLERR | EPOLLHUP); n++;
       }
     }
